@@ -40,8 +40,10 @@ func genC19(rt *rapid.T) CaseC19 {
 	}
 	n := rapid.IntRange(2, 10).Draw(rt, "nsteps")
 	for i := 0; i < n; i++ {
-		st := StepC19{Kind: rapid.SampledFrom([]string{"local", "local", "remote", "remote", "remote", "rmerge", "rmerge", "merge", "merge", "merge", "reopen", "reopen", "snapshot", "snapshot", "failwrite"}).Draw(rt, "kind")}
+		st := StepC19{Kind: rapid.SampledFrom([]string{"local", "local", "remote", "remote", "remote", "rmerge", "rmerge", "merge", "merge", "merge", "reopen", "reopen", "snapshot", "snapshot", "failwrite", "reload"}).Draw(rt, "kind")}
 		switch st.Kind {
+		case "reload":
+			st.N = rapid.SampledFrom([]int{-1, 0, 1, 2, 3, 50}).Draw(rt, "limit")
 		case "local":
 			st.N = rapid.IntRange(1, 6).Draw(rt, "n")
 		case "remote":
@@ -162,6 +164,7 @@ func execC19(c CaseC19) *Outcome {
 		}
 		return nil
 	}
+	trimmed := false // a Load with a limit has cut the log held in memory: it is no longer the complete log
 	atRest := func(where string) *Outcome {
 		s := cl.Stores[0]
 		if !cl.W.WaitQuiescent([]iface.Store{s}, nil, 20*time.Second) {
@@ -183,7 +186,7 @@ func execC19(c CaseC19) *Outcome {
 				singleWriter = false
 			}
 		}
-		if n == 0 {
+		if n == 0 || trimmed {
 			return nil
 		}
 		if p != m {
@@ -204,6 +207,19 @@ func execC19(c CaseC19) *Outcome {
 			if err := write(0, st.N); err != nil {
 				return fail("step %d: %v", i, err)
 			}
+		case "reload":
+			// Load on the open store, possibly with a limit that trims the log held in memory: progress and
+			// maximum must not go down (the bounds against the log are only asserted for an untrimmed log)
+			s0 := cl.Stores[0]
+			before := s0.OpLog().Len()
+			if err := s0.Load(ctx, st.N); err != nil {
+				return fail("step %d: Load(%d) on the open store failed: %v", i, st.N, err)
+			}
+			if s0.OpLog().Len() < before {
+				trimmed = true
+			}
+			ss.sample("after Load on the open store")
+			o.Labels = append(o.Labels, "load-on-open-store")
 		case "failwrite":
 			// a local write whose head cannot be written to storage (I/O error): the call reports the error, the
 			// entry is in the log all the same, and the status must describe that log once at rest; the next
